@@ -34,6 +34,7 @@ type Event struct {
 	Key   string   // canonical identity, stable across executions (used for ordering, replay, independence)
 	Proc  string   // logical process / goroutine the event belongs to
 	Kind  string   // free text: "Save", "Load", "Lock", …
+	Yield bool     // the process voluntarily waits here (e.g. "holding the lock, working"): switching away is not a preemption
 	Label string   // human-readable detail that is NOT part of the identity (e.g. the semantic file name)
 	Alts  []string // possible answers; Alts[0] is the default ("ok"); nil means {"ok"}
 	Meta  any      // scenario data
@@ -102,6 +103,8 @@ type Exec struct {
 	wake        chan struct{}
 	idle        time.Duration
 	timeAction  bool
+	quantum     time.Duration
+	timeDead    bool
 	// IdleWaits counts the times the scheduler had nothing to choose and let virtual time run.
 	IdleWaits int
 }
@@ -154,6 +157,8 @@ type Options struct {
 	IdleTimeout time.Duration
 	// TimeAction adds the choice "@time" (let virtual time pass although operations are pending) at every step.
 	TimeAction bool
+	// TimeQuantum bounds how long one "@time" step lets operations stay pending (a stall); 0 = idle timeout.
+	TimeQuantum time.Duration
 	// LockPoints makes every vsync Lock/RLock of a registered goroutine a scheduling point (FINE).
 	LockPoints bool
 }
@@ -234,12 +239,14 @@ func (x *Exec) Go(name string, f func()) {
 
 // letTimePass blocks the scheduler until something observable happens (a goroutine parks at a gate, a
 // driver finishes) or the idle timeout elapses; meanwhile virtual time advances from timer to timer.
-func (x *Exec) letTimePass() bool {
+func (x *Exec) letTimePass() bool { return x.letTimePassFor(x.idle) }
+
+func (x *Exec) letTimePassFor(d time.Duration) bool {
 	select {
 	case <-x.wake:
 	default:
 	}
-	tm := time.NewTimer(x.idle)
+	tm := time.NewTimer(d)
 	defer tm.Stop()
 	select {
 	case <-x.wake:
@@ -247,6 +254,17 @@ func (x *Exec) letTimePass() bool {
 	case <-tm.C:
 		return false
 	}
+}
+
+func nonYieldNow(x *Exec) bool {
+	x.mu.Lock()
+	defer x.mu.Unlock()
+	for _, p := range x.pend {
+		if !p.ev.Yield {
+			return true
+		}
+	}
+	return false
 }
 
 func (x *Exec) signal() {
@@ -325,6 +343,9 @@ func (x *Exec) choices(sc *Scenario) ([]Choice, []int) {
 	case Preempt:
 		sort.SliceStable(ps, func(i, j int) bool {
 			a, b := ps[i], ps[j]
+			if a.ev.Yield != b.ev.Yield {
+				return !a.ev.Yield
+			}
 			al, bl := a.ev.Proc == x.lastProc, b.ev.Proc == x.lastProc
 			if al != bl {
 				return al
@@ -335,18 +356,62 @@ func (x *Exec) choices(sc *Scenario) ([]Choice, []int) {
 			return lessPending(a, b)
 		})
 	}
-	for _, p := range ps {
-		if p.enabled != nil && !p.enabled() {
-			continue
-		}
-		for a := range p.ev.Alts {
-			cs = append(cs, Choice{Key: p.ev.Key + "=" + p.ev.Alts[a], Proc: p.ev.Proc, Alt: a, p: p})
+	// canonical order: non-yield events, then "time passes", then yield events, then scenario actions
+	nonYield, yieldsParked := 0, 0
+	live := x.Live()
+	var timeChoice *Choice
+	if x.timeAction && live > 0 && !x.timeDead {
+		timeChoice = &Choice{Key: "@time", action: &Action{Name: "time", Do: func(x *Exec) {
+			// while operations are pending this is a stall of those operations: bounded by the quantum
+			d := x.idle
+			if x.quantum > 0 && nonYieldNow(x) {
+				d = x.quantum
+			}
+			if !x.letTimePassFor(d) && d == x.idle {
+				x.timeDead = true
+			}
+		}}}
+	}
+	emit := func(yield bool) {
+		for _, p := range ps {
+			if p.ev.Yield != yield || (p.enabled != nil && !p.enabled()) {
+				continue
+			}
+			if yield {
+				yieldsParked++
+			} else {
+				nonYield++
+			}
+			for a := range p.ev.Alts {
+				cs = append(cs, Choice{Key: p.ev.Key + "=" + p.ev.Alts[a], Proc: p.ev.Proc, Alt: a, p: p})
+			}
 		}
 	}
-	if x.timeAction && x.Live() > 0 && len(cs) > 0 {
-		// "time passes" while backend operations are still pending (slow operations): virtual time runs
-		// until some goroutine parks at a gate or a driver finishes
-		cs = append(cs, Choice{Key: "@time", action: &Action{Name: "time", Do: func(x *Exec) { x.letTimePass() }}})
+	emit(false)
+	procsAtYield := map[string]bool{}
+	for _, p := range ps {
+		if p.ev.Yield {
+			procsAtYield[p.ev.Proc] = true
+		}
+	}
+	// waiting = unfinished registered drivers that are neither at a yield gate nor have an enabled event:
+	// they wait for a timer (or for ever); letting time pass is then the natural next thing
+	waiting := live - len(procsAtYield)
+	procsWithEvent := map[string]bool{}
+	for _, c := range cs {
+		procsWithEvent[c.Proc] = true
+	}
+	waiting -= len(procsWithEvent)
+	timeIdx := -1
+	timeFree := nonYield == 0 && waiting > 0
+	if timeChoice != nil && len(ps) > 0 && timeFree {
+		timeIdx = len(cs)
+		cs = append(cs, *timeChoice)
+	}
+	emit(true)
+	if timeChoice != nil && len(ps) > 0 && !timeFree {
+		timeIdx = len(cs)
+		cs = append(cs, *timeChoice)
 	}
 	if sc.Actions != nil {
 		acts := sc.Actions(x)
@@ -365,14 +430,18 @@ func (x *Exec) choices(sc *Scenario) ([]Choice, []int) {
 	case Preempt:
 		lastEnabled := false
 		for _, c := range cs {
-			if c.p != nil && c.Proc == x.lastProc && c.Alt == 0 {
+			if c.p != nil && c.Proc == x.lastProc && c.Alt == 0 && !c.p.ev.Yield {
 				lastEnabled = true
 			}
 		}
 		firstOfProc := map[string]*pending{}
+		var firstYield *pending
 		for _, c := range cs {
 			if c.p != nil && firstOfProc[c.Proc] == nil {
 				firstOfProc[c.Proc] = c.p
+			}
+			if c.p != nil && c.p.ev.Yield && firstYield == nil {
+				firstYield = c.p
 			}
 		}
 		for i, c := range cs {
@@ -380,12 +449,22 @@ func (x *Exec) choices(sc *Scenario) ([]Choice, []int) {
 			if c.Alt > 0 {
 				cost++
 			}
-			if c.action != nil {
+			switch {
+			case i == timeIdx:
+				// free only when nothing else can run and somebody is waiting for a timer
 				cost = 1
-				if !lastEnabled && len(ps) == 0 {
+				if nonYield == 0 && waiting > 0 {
 					cost = 0
 				}
-			} else {
+			case c.action != nil:
+				cost = 1
+			case c.p.ev.Yield:
+				// ending a voluntary wait (e.g. releasing a held lock) is the default only when nothing
+				// else can happen; earlier it is a deviation
+				if nonYield > 0 || (timeIdx >= 0 && timeFree) || firstYield != c.p {
+					cost++
+				}
+			default:
 				if lastEnabled && c.Proc != x.lastProc {
 					cost++ // preemption
 				}
@@ -394,10 +473,6 @@ func (x *Exec) choices(sc *Scenario) ([]Choice, []int) {
 				}
 			}
 			costs[i] = cost
-		}
-		if len(cs) > 0 && !lastEnabled {
-			// non-preemptive switch: the canonical first choice is free, and so is every
-			// other default-answer event (the running goroutine blocked or finished)
 		}
 	}
 	return cs, costs
@@ -420,6 +495,7 @@ func (x *Exec) apply(c Choice) {
 	}
 	x.mu.Unlock()
 	x.lastProc = c.Proc
+	x.timeDead = false
 	c.p.ch <- c.Alt
 }
 
@@ -445,6 +521,7 @@ func runOne(t *testing.T, sc *Scenario, opt *Options, prefix []string) *Exec {
 			x.idle = 2 * time.Hour
 		}
 		x.timeAction = opt.TimeAction
+		x.quantum = opt.TimeQuantum
 		maxSteps := opt.MaxSteps
 		if maxSteps <= 0 {
 			maxSteps = 2000
